@@ -159,8 +159,13 @@ func TestC19_P_FixtureGenerators(t *testing.T) {
 				de = testutil.GenerateFile(rec, ls, r, size)
 			case "UnixFSDirectory":
 				bw := rapid.SampledFrom([]int{0, 2, 4, 8}).Draw(t, "bitwidth")
-				opt = fmt.Sprintf("bitwidth=%d", bw)
-				de, err = testutil.UnixFSDirectory(*ls, dirSize, testutil.WithRandReader(r), testutil.WithShardBitwidth(bw))
+				dirname := rapid.SampledFrom([]string{"", "", "/sub", "/a/b c"}).Draw(t, "dirname")
+				opt = fmt.Sprintf("bitwidth=%d dirname=%q", bw, dirname)
+				opts := []testutil.Option{testutil.WithRandReader(r), testutil.WithShardBitwidth(bw)}
+				if dirname != "" {
+					opts = append(opts, testutil.WithDirname(dirname))
+				}
+				de, err = testutil.UnixFSDirectory(*ls, dirSize, opts...)
 			case "UnixFSDirectory+ChildGenerator":
 				bw := rapid.SampledFrom([]int{0, 2, 4}).Draw(t, "bitwidth")
 				nfiles := rapid.IntRange(0, 30).Draw(t, "nfiles")
